@@ -1218,7 +1218,16 @@ jcBinOpPrint(JavaCodePContext ctxt, JavaCode code)
 
 	jc0PrintWithParens(ctxt, thisClss, lhs);
 	jcoPContextWrite(ctxt, thisClss->txt);
-	jc0PrintWithParens(ctxt, thisClss, rhs);
+	/* Binary operators group left to right: a right operand of
+	 * the same precedence keeps its parentheses, a - (b + c). */
+	if (thisClss->assoc == JCO_LR && jcoClass(rhs)->prec != 0
+	    && jcoClass(rhs)->prec == thisClss->prec) {
+		jcoPContextWrite(ctxt, "(");
+		jcoWrite(ctxt, rhs);
+		jcoPContextWrite(ctxt, ")");
+	}
+	else
+		jc0PrintWithParens(ctxt, thisClss, rhs);
 }
 
 local void
